@@ -16,9 +16,10 @@ package memfd
 // carries all four seals (no write, grow, shrink or further sealing), and is positioned at its start.
 //@ func pkg/memfd.DupToMemfd props C13
 //@   arith int
-//@   assigns FC.closed, FD.closed, F.copied, F.copy_fd, F.copy_src, F.seals, F.seal_fd, F.sealed_after_copy, F.pos, F.seek_fd, F.seek_after_seal
+//@   assigns FC.closed, FD.closed, F.copied, F.copy_fd, F.copy_src, F.seals, F.seal_fd, F.sealed_after_copy, F.pos, F.seek_fd, F.seek_after_seal, F.resized
 //@   ensures result.1 == nil ==> result.0 != nil && F.copied && F.copy_fd == fdof(result.0) && F.copy_src == reader
 //@   ensures result.1 == nil ==> F.seals == 15 && F.seal_fd == uintptr(fdof(result.0)) && F.sealed_after_copy
 //@   ensures result.1 == nil ==> F.pos == 0 && F.seek_fd == fdof(result.0) && F.seek_after_seal
+//@   ensures F.resized == old(F.resized)
 //@   ensures @C12 @C13 result.1 == nil ==> !FC.closed[result.0]
 //@   callsite return: assert @C12 @C13 result.1 != nil && file != nil ==> FC.closed[file]
